@@ -28,6 +28,9 @@ type zzWorld struct {
 	mapTag  [3]int // PWM map of fan i is {0: 0, 255: tag}
 	hasData [3]bool
 	hasMap  [3]bool
+	// the stored value is the empty map (a legitimate value: "an empty map" is not "no entry")
+	emptyData [3]bool
+	emptyMap  [3]bool
 }
 
 func zzFan(id string, data *map[int]float64) fans.Fan {
@@ -38,7 +41,24 @@ func (w *zzWorld) saveData(i int, tag int) error {
 	m := map[int]float64{tag: float64(tag)}
 	err := w.p.SaveFanPwmData(zzFan(zzIds[i], &m))
 	if err == nil {
-		w.hasData[i], w.dataTag[i] = true, tag
+		w.hasData[i], w.dataTag[i], w.emptyData[i] = true, tag, false
+	}
+	return err
+}
+
+func (w *zzWorld) saveEmptyData(i int) error {
+	m := map[int]float64{}
+	err := w.p.SaveFanPwmData(zzFan(zzIds[i], &m))
+	if err == nil {
+		w.hasData[i], w.emptyData[i] = true, true
+	}
+	return err
+}
+
+func (w *zzWorld) saveEmptyMap(i int) error {
+	err := w.p.SaveFanPwmMap(zzIds[i], map[int]int{})
+	if err == nil {
+		w.hasMap[i], w.emptyMap[i] = true, true
 	}
 	return err
 }
@@ -46,7 +66,7 @@ func (w *zzWorld) saveData(i int, tag int) error {
 func (w *zzWorld) saveMap(i int, tag int) error {
 	err := w.p.SaveFanPwmMap(zzIds[i], map[int]int{0: 0, 255: tag})
 	if err == nil {
-		w.hasMap[i], w.mapTag[i] = true, tag
+		w.hasMap[i], w.mapTag[i], w.emptyMap[i] = true, tag, false
 	}
 	return err
 }
@@ -107,7 +127,9 @@ func (w *zzWorld) zzReadBack(label string) {
 		d, err := w.p.LoadFanPwmData(zzFan(zzIds[i], nil))
 		if w.hasData[i] {
 			zzv.Assert(err == nil, label+".stored_data_loads")
-			if err == nil {
+			if err == nil && w.emptyData[i] {
+				zzv.Assert(len(d) == 0, label+".stored_empty_data_unchanged")
+			} else if err == nil {
 				v, ok := d[w.dataTag[i]]
 				zzv.Assert(zzv.And(len(d) == 1, zzv.And(ok, v == float64(w.dataTag[i]))), label+".stored_data_unchanged")
 			}
@@ -117,7 +139,9 @@ func (w *zzWorld) zzReadBack(label string) {
 		m, err := w.p.LoadFanPwmMap(zzIds[i])
 		if w.hasMap[i] {
 			zzv.Assert(err == nil, label+".stored_map_loads")
-			if err == nil {
+			if err == nil && w.emptyMap[i] {
+				zzv.Assert(len(m) == 0, label+".stored_empty_map_unchanged")
+			} else if err == nil {
 				zzv.Assert(zzv.And(len(m) == 2, zzv.And(m[0] == 0, m[255] == w.mapTag[i])), label+".stored_map_unchanged")
 			}
 		} else {
